@@ -73,6 +73,11 @@ package crypki
 //@     calls(credentials.NewTLS) == n0 + 1 && arg(credentials.NewTLS, n0, 0) == ret(tlsutils.TLSClientConfiguration, t0, 0) &&
 //@     calls(grpc.WithTransportCredentials) == w0 + 1 && arg(grpc.WithTransportCredentials, w0, 0) == ret(credentials.NewTLS, n0, 0) &&
 //@     len(result0.dialOptions) == 3 && result0.dialOptions[0] == ret(grpc.WithTransportCredentials, w0, 0))
+//@   ensures [tls-config-handed-over-as-built] err == nil ==> (
+//@     !ret(tlsutils.TLSClientConfiguration, t0, 0).InsecureSkipVerify && ret(tlsutils.TLSClientConfiguration, t0, 0).ServerName == "" &&
+//@     ret(tlsutils.TLSClientConfiguration, t0, 0).VerifyPeerCertificate == nil && ret(tlsutils.TLSClientConfiguration, t0, 0).VerifyConnection == nil &&
+//@     ret(tlsutils.TLSClientConfiguration, t0, 0).MinVersion == 771 && ret(tlsutils.TLSClientConfiguration, t0, 0).MaxVersion == 0 &&
+//@     ret(tlsutils.TLSClientConfiguration, t0, 0).RootCAs != nil && ret(tlsutils.TLSClientConfiguration, t0, 0).GetClientCertificate != nil)
 //@   ensures [endpoint-list] err == nil ==> (len(result0.endpoints) == len(conf.CrypkiEndpoints) &&
 //@     forall(i, 0 <= i && i < len(conf.CrypkiEndpoints), result0.endpoints[i] == conf.CrypkiEndpoints[i] + ":" + itoa(conf.CrypkiPort)))
 //@   loop 1:
@@ -81,5 +86,7 @@ package crypki
 //@     invariant calls(tlsutils.TLSClientConfiguration) == t0 + 1 && ret(tlsutils.TLSClientConfiguration, t0, 1) == nil &&
 //@       arg(tlsutils.TLSClientConfiguration, t0, 0) == conf.TLSClientCertFile && arg(tlsutils.TLSClientConfiguration, t0, 1) == conf.TLSClientKeyFile &&
 //@       arg(tlsutils.TLSClientConfiguration, t0, 2) == conf.TLSCACertFiles && tlsCfg == ret(tlsutils.TLSClientConfiguration, t0, 0)
+//@     invariant !tlsCfg.InsecureSkipVerify && tlsCfg.ServerName == "" && tlsCfg.VerifyPeerCertificate == nil && tlsCfg.VerifyConnection == nil &&
+//@       tlsCfg.MinVersion == 771 && tlsCfg.MaxVersion == 0 && tlsCfg.RootCAs != nil && tlsCfg.GetClientCertificate != nil
 //@     invariant calls(credentials.NewTLS) == n0 + 1 && arg(credentials.NewTLS, n0, 0) == tlsCfg && clientCreds == ret(credentials.NewTLS, n0, 0) &&
 //@       calls(grpc.WithTransportCredentials) == w0
